@@ -17,43 +17,33 @@ from ..hycore import T, record, render, run_hy, sites_of
 INVS = ["UnselectedBranchSilent", "ShortCircuit", "OrderedOneAtATime", "HeapWellFormed", "LogCounts"]
 
 
-def _tlc_batch(run, recs, mode, label, timeout=3600):
+def _tlc_batch(run, recs, mode, label, timeout=3600, workers=16):
     pf = run.work / f"progs-{label}.ndjson"
     with open(pf, "w") as f:
         for r in recs:
             f.write(json.dumps(r) + "\n")
-    if mode == "trace":
-        cfg = tlc.cfg(invariants=["Accept", "OutOfScope"] + INVS, post="Post", constraint="Bound")
-    else:
-        cfg = tlc.cfg(invariants=["ExportOutcome", "OutOfScope"] + INVS, post="Post", constraint="Bound")
-    r = tlc.run("HyCoreRun", cfg, run.work, workers=1, env={"PROG_FILE": str(pf)}, label=label,
+    first = "Accept" if mode == "trace" else "ExportOutcome"
+    cfg = tlc.cfg(invariants=[first, "OutOfScope"] + INVS, constraint="Bound")
+    r = tlc.run("HyCoreRun", cfg, run.work, workers=workers, env={"PROG_FILE": str(pf)}, label=label,
                 timeout=timeout)
     if r.violated:
         raise MachineryError(f"HyCore invariant {r.violated} violated in batch {label}")
-    acc = r.ex("ACCEPTED")
-    if not acc:
-        raise MachineryError(f"no ACCEPTED record from batch {label}")
-    return r, set(acc[-1]["ids"]), set(acc[-1]["oos"])
+    return r, {int(x) for x in r.ex("ACC")}, {int(x) for x in r.ex("OOS")}
 
 
-def tlc_parallel(run, recs, mode, label, chunk=1500, par=6, timeout=3600):
-    """Split recs into chunks, one single-worker TLC each, `par` at a time.
-    Returns (accepted idx set, oos idx set, outcomes dict idx->list) with
-    0-based indices into recs."""
+def tlc_parallel(run, recs, mode, label, chunk=20000, par=1, timeout=3600):
+    """Run TLC over recs (in chunks to bound memory).  Returns (accepted idx set,
+    oos idx set, outcomes dict idx->list) with 0-based indices into recs."""
     chunks = [(i, recs[i:i + chunk]) for i in range(0, len(recs), chunk)]
     acc, oos, outs = set(), set(), {}
-
-    def job(c):
-        i0, rs = c
-        return i0, _tlc_batch(run, rs, mode, f"{label}-{i0}", timeout)
-
-    with ThreadPoolExecutor(max_workers=par) as ex:
-        for i0, (r, a, o) in ex.map(job, chunks):
-            run.add_tlc(r, f"HyCoreRun {mode} batch {label}@{i0} ({len(a)} accepted)")
-            acc |= {i0 + x - 1 for x in a}
-            oos |= {i0 + x - 1 for x in o}
-            for e in r.ex("OUT"):
-                outs.setdefault(i0 + e["pid"] - 1, []).append(e["o"])
+    for i0, rs in chunks:
+        r, a, o = _tlc_batch(run, rs, mode, f"{label}-{i0}", timeout,
+                             workers=16 if len(rs) > 30 else 4)
+        run.add_tlc(r, f"HyCoreRun {mode} batch {label}@{i0} ({len(a)} accepted)")
+        acc |= {i0 + x - 1 for x in a}
+        oos |= {i0 + x - 1 for x in o}
+        for e in r.ex("OUT"):
+            outs.setdefault(i0 + e["pid"] - 1, []).append(e["o"])
     return acc, oos, outs
 
 
@@ -79,7 +69,7 @@ def fault_variants(rng, base, nv, limit, types=(1, 2, 3), pairs=False):
     log = base.obs["log"]
     seen = {}
     points = []
-    for k in log:
+    for k, _v in log:
         seen[k] = seen.get(k, 0) + 1
         points.append((k, seen[k]))
     if len(points) > limit:
@@ -122,7 +112,7 @@ def decide(run, cases, nv, label, explore_small=0):
     negs = []
     for c in usable[:3]:
         o = c.obs
-        negs.append(("extra effect of an unknown site", c, dict(o, log=o["log"] + [c.ns + 40])))
+        negs.append(("extra effect of an unknown site", c, dict(o, log=o["log"] + [[c.ns + 40, ["none", 0, []]]])))
         negs.append(("impossible outcome", c, dict(o, out=["exc", 77])))
         negs.append(("corrupted final global", c, dict(o, globals=[["int", 77, []]] + o["globals"][1:])))
     nrec = [record(c.tree, c.script, c.fault, c.supp, "trace", bad, nv=nv, maxlog=len(bad["log"]) + 1)
@@ -147,7 +137,7 @@ def decide(run, cases, nv, label, explore_small=0):
         erecs = [record(usable[i].tree, usable[i].script, usable[i].fault, usable[i].supp, "explore",
                         None, nv=nv, maxlog=len(usable[i].obs["log"]) + 6) for i in rr]
         try:
-            _, _, outs = tlc_parallel(run, erecs, "explore", label + "-diag", chunk=8, timeout=150)
+            _, _, outs = tlc_parallel(run, erecs, "explore", label + "-diag", timeout=150)
         except MachineryError as x:
             if "timeout" not in str(x):
                 raise
@@ -174,7 +164,7 @@ def decide(run, cases, nv, label, explore_small=0):
         small = [c for c in usable if c.tree.size() <= explore_small][:3000]
         erecs = [record(c.tree, c.script, c.fault, c.supp, "explore", None, nv=nv,
                         maxlog=len(c.obs["log"]) + 6) for c in small]
-        _, eoos, outs = tlc_parallel(run, erecs, "explore", label + "-exp", chunk=600)
+        _, eoos, outs = tlc_parallel(run, erecs, "explore", label + "-exp")
         multi = 0
         for j, c in enumerate(small):
             if j in eoos:
